@@ -23,7 +23,9 @@ ASSUMPTIONS = [
     "zero and non-finite factors are outside the statement",
 ]
 
-FACTORS = [2, 3, 0.5, 0.25, 1.5, 7, 10, 0.1, 1 / 3, 2.5, np.int64(3), np.int32(2), np.float64(0.75), np.float32(0.5), np.float32(1.5), np.int16(4), np.float16(2.0), 1000, 1e-3]
+FACTORS = [2, 3, 0.5, 0.25, 1.5, 7, 10, 0.1, 1 / 3, 2.5, np.int64(3), np.int32(2), np.float64(0.75), np.float32(0.5), np.float32(1.5), np.int16(4), np.float16(2.0), 1000, 1e-3,
+           # numpy scalars whose square does not fit / is rounded in their own type
+           np.uint8(20), np.int16(300), np.int32(70000), np.float16(0.1), np.float32(0.1), np.uint16(1000)]
 
 
 def attach_monitors():
@@ -92,6 +94,8 @@ def one_case(ctx, index, rng: random.Random):
             for _ in range(steps):
                 c = rng.choice(narrow if narrow is not None else FACTORS)
                 form = rng.choice(["mul", "rmul", "div", "imul", "idiv"])
+                if np.dtype(cur.dtype).kind in "iu" and form in ("mul", "rmul", "imul") and float(np.max(np.asarray(cur.errors2), initial=0)) * float(c) ** 2 > 1e17:
+                    c = 0.5  # integer contents stay far inside int64 (numpy's silent wrap-around is outside the statement)
                 chain.append((form, repr(c)))
                 if form == "mul":
                     cur = cur * c
@@ -210,12 +214,8 @@ def one_case(ctx, index, rng: random.Random):
                 elif kind == "rdiv":
                     _ = 2 / h
                 elif kind == "neg":
-                    if h.total == 0:
-                        continue
                     _ = h * rng.choice([-1, -2.5]) if rng.random() < 0.5 else h.copy().__imul__(-3)
                 elif kind == "neg_div":
-                    if h.total == 0:
-                        continue
                     _ = h / rng.choice([-2, -0.5, np.float64(-4.0)]) if rng.random() < 0.5 else h.copy().__itruediv__(-2.0)
                 elif kind == "array_div":
                     _ = h / np.full(h.shape, 2.0)
@@ -277,9 +277,17 @@ def collection_case(ctx, index, rng: random.Random):
     pairs = gen.pairs_from_edges(e)
     k = rng.randint(1, 4)
     hs = []
+    narrow_members = rng.random() < 0.15
     for i in range(k):
         data = gen.data_for_bins(rng, pairs, rng.randint(1, 30), outside=False)
         hs.append(physt.h1(np.asarray(data), np.array(e), name=f"h{i}"))
+        if narrow_members:
+            # float16 members whose bins fit the type while their sum over the members does not
+            with attach.quiet():
+                from physt.histogram1d import Histogram1D
+
+                f16 = np.minimum(np.asarray(hs[-1].frequencies, dtype=float) * 9000.0, 60000.0).astype(np.float16)
+                hs[-1] = Histogram1D(np.array(e), f16, errors2=f16.copy(), name=f"h{i}")
     if any(x.total == 0 for x in hs):
         return  # normalising an empty member divides by zero: outside the statement
     how = rng.choice(["members", "members", "facade", "create"])
@@ -344,13 +352,16 @@ def narrow_total_case(ctx, index, rng: random.Random):
 
     rec = ctx.rec
     rec.mon("C06.identities")
-    dt = rng.choice(["int16", "int32"])
-    top = int(np.iinfo(dt).max)
+    dt = rng.choice(["int16", "int32", "float16"])
+    top = int(np.iinfo(dt).max) if dt != "float16" else 60000  # float16: every bin below 65504, the sum is not
     d = rng.choice([1, 1, 2])
     shape = [rng.randint(2, 6) for _ in range(d)]
     big = np.array([rng.choice([0, 1, top // 2, top - 1, top, rng.randint(0, top)]) for _ in range(int(np.prod(shape)))], dtype=dt).reshape(shape)
     edges = [np.array(gen.edges(rng, n)) for n in shape]
-    exact = int(big.astype(np.int64).sum())
+    exact = int(big.astype(np.float64).sum()) if dt == "float16" else int(big.astype(np.int64).sum())
+    if dt == "float16":
+        big = big.astype(np.float16)
+        exact = float(big.astype(np.float64).sum())
     try:
         with warnings.catch_warnings():
             warnings.simplefilter("ignore")
@@ -364,12 +375,12 @@ def narrow_total_case(ctx, index, rng: random.Random):
                  detail={"dtype": dt, "error": str(e)[:160], "contents": big.ravel()[:8]})
         return
     with attach.quiet():
-        if float(tot) != float(exact):
+        if (abs(float(tot) - exact) > 1e-3 * exact) if dt == "float16" else (float(tot) != float(exact)):
             rec.fail(monitor="C06.identities", op="total", symptom="total of compact integer contents is not the sum of the bins (wrapped around)", diff=["total"],
                      detail={"dtype": dt, "got": float(tot), "expected": exact})
         if n is not None:
             want = big.astype(float) / exact * (100 if percent else 1)
-            if not np.allclose(np.asarray(n.frequencies, dtype=float), want, rtol=1e-12, atol=0) or abs(float(n.total) - (100 if percent else 1)) > 1e-9:
+            if not np.allclose(np.asarray(n.frequencies, dtype=float), want, rtol=1e-12 if dt != "float16" else 4e-3, atol=0) or abs(float(n.total) - (100 if percent else 1)) > (1e-9 if dt != "float16" else 1e-2):
                 rec.fail(monitor="C06.identities", op="normalize", symptom="normalize() of compact integer contents does not give total 1 (100) with unchanged proportions", diff=["frequencies"],
                          detail={"dtype": dt, "total_after": float(n.total), "got": np.asarray(n.frequencies).ravel()[:6], "expected": want.ravel()[:6]})
         if not np.array_equal(np.asarray(half.frequencies, dtype=float), big.astype(float) / 2):
